@@ -63,8 +63,12 @@ type scenario struct {
 	cap   int
 	defs  []*txDef
 	bals  map[payerKey]int64
+	off   map[payerKey]*big.Int // huge-balance cases: added to every balance of the payer (tests uint256 truncation)
 	ops   []op
 	drift bool // balances change between refreshes: the solvency oracle is off, the tie stays on
+	// malformed: some transaction repeats a Conflicts hash (rejected by blockchain.verifyTxAttributes before
+	// it can reach Pool.Add, so outside the property's domain): only the tie and the panic oracle stay on
+	malformed bool
 }
 
 func account(n int) util.Uint160 {
@@ -140,6 +144,7 @@ func build(d *txDef, defs []*txDef) {
 
 type feer struct {
 	bals map[payerKey]int64
+	off  map[payerKey]*big.Int
 	acc  map[util.Uint160]int
 	fpb  int64
 }
@@ -147,7 +152,15 @@ type feer struct {
 func (f *feer) FeePerByte() int64   { return f.fpb }
 func (f *feer) BlockHeight() uint32 { return 10 }
 func (f *feer) GetUtilityTokenBalance(p, s util.Uint160) *big.Int {
-	return big.NewInt(f.bals[payerKey{f.acc[p], f.acc[s]}])
+	return f.balance(payerKey{f.acc[p], f.acc[s]})
+}
+
+func (f *feer) balance(pk payerKey) *big.Int {
+	b := big.NewInt(f.bals[pk])
+	if o, ok := f.off[pk]; ok {
+		b.Add(b, o)
+	}
+	return b
 }
 
 func csv(l []int) string {
@@ -193,7 +206,7 @@ func main() {
 	o := hx.NewOut(f.Out)
 	defer o.Close()
 	corpus := corpusScenarios()
-	n := f.N(3000, 100000)
+	n := f.N(3000, 300000)
 	for k := 0; k < n; k++ {
 		if !f.Want(k) {
 			continue
@@ -282,7 +295,7 @@ func protect(f func()) (panicked bool) {
 
 func runScenario(o *hx.Out, k int, sc *scenario) {
 	r := &runner{o: o, k: k, sc: sc, byH: map[util.Uint256]int{}, fails: map[string]bool{}}
-	r.fe = &feer{bals: map[payerKey]int64{}, acc: map[util.Uint160]int{}}
+	r.fe = &feer{bals: map[payerKey]int64{}, off: sc.off, acc: map[util.Uint160]int{}}
 	for i := 0; i < 64; i++ {
 		r.fe.acc[account(i)] = i
 	}
@@ -305,7 +318,7 @@ func runScenario(o *hx.Out, k int, sc *scenario) {
 	sort.Slice(keys, func(i, j int) bool { return keys[i].p < keys[j].p || keys[i].p == keys[j].p && keys[i].s < keys[j].s })
 	for _, pk := range keys {
 		r.fe.bals[pk] = sc.bals[pk]
-		o.Line(fmt.Sprintf("bal %d %d %d", pk.p, pk.s, sc.bals[pk]), "ok")
+		o.Line(fmt.Sprintf("bal %d %d %s", pk.p, pk.s, r.fe.balance(pk).String()), "ok")
 	}
 	canon := fmt.Sprintf("c%d", sc.cap)
 	before := r.snap()
@@ -316,7 +329,7 @@ func runScenario(o *hx.Out, k int, sc *scenario) {
 		switch p.kind {
 		case opBal:
 			r.fe.bals[p.pk] = p.amt
-			o.Line(fmt.Sprintf("bal %d %d %d", p.pk.p, p.pk.s, p.amt), "ok")
+			o.Line(fmt.Sprintf("bal %d %d %s", p.pk.p, p.pk.s, r.fe.balance(p.pk).String()), "ok")
 			continue
 		case opVerify:
 			var v bool
